@@ -517,6 +517,9 @@ def run_adversarial(plan, stats):
             viols.append(Violation(PROP, 'report', 'debug-mode-changes-results',
                                    {'index': ix, 'plain': a[ix] if ix < len(a) else None, 'debug': b[ix] if ix < len(b) else None}))
         else:
+            bad_fv = check_failure_values(plan, outs[True])
+            if bad_fv is not None:
+                viols.append(Violation(PROP, 'contain', 'reported-failure-with-undocumented-value:' + bad_fv['function'], bad_fv))
             n_null = sum(1 for e in a if e[0] == 'obs' and e[1][1][1] is None)
             n_reports = sum(1 for e in outs[True].events if e[0] == 'log' and str(e[1]).startswith('BareScript: Function'))
             if n_reports:
@@ -530,6 +533,28 @@ def run_adversarial(plan, stats):
     if stats.c['evaluations'] % 301 == 1:
         sample = {'seed': plan.get('seed'), 'family': 'adversarial', 'program': ir.render_statements(plan['model'])[:24]}
     return RunResult(viols, digest_of(dig), sample)
+
+
+def check_failure_values(plan, out):
+    """A library call that REPORTED a failure (debug mode) evaluated to null or to a documented failure value
+    (-1, 0, false; objectGet: its default argument). Reports are attributed to the statement during which they
+    were logged; only reports naming the statement's own top-level function are judged."""
+    tops = producers_of(plan)
+    stmt = 0
+    reported = set()
+    for ev in out.events:
+        if ev[0] == 'log' and isinstance(ev[1], str) and ev[1].startswith('BareScript:') and '"' in ev[1]:
+            reported.add(ev[1].split('"', 2)[1])
+        elif ev[0] == 'obs':
+            if stmt < len(tops) and tops[stmt].startswith('function '):
+                name = tops[stmt][9:]
+                value = ev[1][1][1]
+                if name in reported and name not in ('objectGet', 'systemFetch', 'hostTick', 'fnA', 'fnRec', 'if') and \
+                        value not in (None, False) and value != ['n', -1] and value != ['n', 0]:
+                    return {'function': name, 'statement': stmt, 'value': value}
+            stmt += 1
+            reported = set()
+    return None
 
 
 def check_fetch_shapes(plan, obs):
